@@ -27,6 +27,7 @@ import PyhamModel.Lemmas.Additivity
 import PyhamModel.Lemmas.FilterLemmas
 import PyhamModel.Lemmas.NamingLemmas
 import PyhamModel.Lemmas.Spelling
+import PyhamModel.Lemmas.Annotations
 namespace Pyham.Props
 open Pyham
 
@@ -344,6 +345,21 @@ theorem C18_names (T : STree) : T.leafNames = (T.leafTaxa).filterMap (fun p => (
 theorem C18_duplicate_leaf_names_rejected (T : STree) (nm : Naming)
     (h : ¬ (T.leafTaxa.filterMap (T.nameAt nm)).Nodup) : taxonomyBuild T nm = .error .key :=
   Pyham.C15_ambiguous_rejected T nm (Or.inl h)
+
+/-! ## C19 — annotations stay attached to the object they annotate -/
+
+/-- for every consistent file: the HOG created for a written group carries exactly that group's id,
+    scores and properties (label first, then the annotation elements in file order, later entries with
+    the same key overwriting) -- never those of another group; every HOG synthesised for a skipped level
+    or for the level of a duplication carries none; genes keep their LOFT ids (`RealisesA`) -/
+theorem C19_annotations (env : Env) (fams : List (Taxon × SL))
+    (hf : ∀ f ∈ fams, isWrittenGrp f.2 = true ∧ wfh env.T f.1 f.2 = true ∧ recoverable f.1 f.2 = true ∧
+      Declared env f.1 f.2 ∧ (genesOf f.2).Nodup)
+    (hn : NamesInj env.T env.nm) :
+    ∃ tops ps, topElems env none (fams.flatMap fun f => encode env.T env.nm f.1 f.2) [] {} = .ok (tops, ps) ∧
+      tops.length = fams.length ∧
+      ∀ i (h1 : i < tops.length) (h2 : i < fams.length), RealisesA env.T env.nm (fams[i]).1 (fams[i]).2 tops[i] :=
+  Pyham.C19_load_annotations env fams hf hn
 
 /-! ## C20 — dangling references are rejected, never silently dropped -/
 
